@@ -23,7 +23,7 @@ pub open spec fn rs(s: SS, t: Unifiable) -> Unifiable {
 }
 
 pub open spec fn unconstrained(x: Unifiable) -> bool {
-    x is SLinkedList || x is SFunction || x is Nil
+    x is SFunction || x is Nil
 }
 
 // the resolved heads x, y are the same, and so are their arguments to depth n
@@ -40,6 +40,15 @@ pub open spec fn heads_eq(s: SS, x: Unifiable, y: Unifiable, n: nat) -> bool
             (Unifiable::SFloat(p), Unifiable::SFloat(q)) => fe(p, q),
             (Unifiable::SComplex(p), Unifiable::SComplex(q)) =>
                 p@.len() == q@.len() && (n > 0 ==> forall|k: int| 0 <= k < p@.len() ==> req(s, #[trigger] p@[k], q@[k], (n - 1) as nat)),
+            // lists denote sequences with an optional tail: a tail variable stands for the rest of the other list
+            (Unifiable::SLinkedList{term: t1, next: n1, count: _, tail_var: tv1},
+             Unifiable::SLinkedList{term: t2, next: n2, count: _, tail_var: tv2}) =>
+                if tv1 && tv2 { n > 0 ==> req(s, *t1, *t2, (n - 1) as nat) }
+                else if tv1 { n > 0 ==> req(s, *t1, y, (n - 1) as nat) }
+                else if tv2 { n > 0 ==> req(s, x, *t2, (n - 1) as nat) }
+                else if *t1 == Unifiable::Nil && *t2 == Unifiable::Nil { true }
+                else if *t1 == Unifiable::Nil || *t2 == Unifiable::Nil { false }
+                else { n > 0 ==> req(s, *t1, *t2, (n - 1) as nat) && req(s, *n1, *n2, (n - 1) as nat) },
             _ => false,
         }
     }
@@ -153,6 +162,13 @@ pub proof fn lemma_heads_refl(s: SS, x: Unifiable, n: nat)
                 }
             }
         },
+        Unifiable::SLinkedList{term, next, count, tail_var} => {
+            if n > 0 {
+                lemma_req_refl(s, *term, (n - 1) as nat);
+                lemma_req_refl(s, *next, (n - 1) as nat);
+                lemma_req_refl(s, x, (n - 1) as nat);
+            }
+        },
         _ => {},
     }
 }
@@ -178,6 +194,16 @@ pub proof fn lemma_heads_sym(s: SS, x: Unifiable, y: Unifiable, n: nat)
                         assert(req(s, p@[k], q@[k], (n - 1) as nat));
                         lemma_req_sym(s, p@[k], q@[k], (n - 1) as nat);
                     }
+                }
+            },
+            (Unifiable::SLinkedList{term: t1, next: n1, count: _, tail_var: tv1},
+             Unifiable::SLinkedList{term: t2, next: n2, count: _, tail_var: tv2}) => {
+                if n > 0 {
+                    if tv1 && tv2 { lemma_req_sym(s, *t1, *t2, (n - 1) as nat); }
+                    else if tv1 { lemma_req_sym(s, *t1, y, (n - 1) as nat); }
+                    else if tv2 { lemma_req_sym(s, x, *t2, (n - 1) as nat); }
+                    else if *t1 == Unifiable::Nil || *t2 == Unifiable::Nil { }
+                    else { lemma_req_sym(s, *t1, *t2, (n - 1) as nat); lemma_req_sym(s, *n1, *n2, (n - 1) as nat); }
                 }
             },
             _ => {},
@@ -227,6 +253,16 @@ pub proof fn lemma_heads_mono(s2: SS, s1: SS, x: Unifiable, y: Unifiable, n: nat
                         assert(req(s1, p@[k], q@[k], (n - 1) as nat));
                         lemma_req_mono(s2, s1, p@[k], q@[k], (n - 1) as nat);
                     }
+                }
+            },
+            (Unifiable::SLinkedList{term: t1, next: n1, count: _, tail_var: tv1},
+             Unifiable::SLinkedList{term: t2, next: n2, count: _, tail_var: tv2}) => {
+                if n > 0 {
+                    if tv1 && tv2 { lemma_req_mono(s2, s1, *t1, *t2, (n - 1) as nat); }
+                    else if tv1 { lemma_req_mono(s2, s1, *t1, y, (n - 1) as nat); }
+                    else if tv2 { lemma_req_mono(s2, s1, x, *t2, (n - 1) as nat); }
+                    else if *t1 == Unifiable::Nil || *t2 == Unifiable::Nil { }
+                    else { lemma_req_mono(s2, s1, *t1, *t2, (n - 1) as nat); lemma_req_mono(s2, s1, *n1, *n2, (n - 1) as nat); }
                 }
             },
             _ => {},
@@ -287,6 +323,16 @@ pub proof fn lemma_ueq_req(s: SS, a: Unifiable, b: Unifiable, n: nat)
                     lemma_ueq_seq_index(p@, q@, k);
                     lemma_ueq_req(s, p@[k], q@[k], (n - 1) as nat);
                 }
+            }
+        },
+        (Unifiable::SLinkedList{term: t1, next: n1, count: _, tail_var: tv1},
+         Unifiable::SLinkedList{term: t2, next: n2, count: _, tail_var: tv2}) => {
+            assert(tv1 == tv2);
+            assert(ueq(*t1, *t2) && ueq(*n1, *n2));
+            assert((*t1 == Unifiable::Nil) == (*t2 == Unifiable::Nil));
+            if n > 0 {
+                lemma_ueq_req(s, *t1, *t2, (n - 1) as nat);
+                lemma_ueq_req(s, *n1, *n2, (n - 1) as nat);
             }
         },
         _ => {},
@@ -374,4 +420,58 @@ pub proof fn lemma_same_end_sound(s: SS, a: Unifiable, b: Unifiable)
 
 pub open spec fn post_sound(a: Unifiable, b: Unifiable, res: Option<RSS>) -> bool {
     res matches Some(r) ==> sound(r@, a, b)
+}
+
+// --- list nodes ---------------------------------------------------------------------------
+pub open spec fn lterm(x: Unifiable) -> Unifiable { *x->SLinkedList_term }
+pub open spec fn lnext(x: Unifiable) -> Unifiable { *x->SLinkedList_next }
+pub open spec fn ltv(x: Unifiable) -> bool { x->SLinkedList_tail_var }
+
+// what the exits of the list loop establish about the two current nodes x, y, for every substitution r
+pub proof fn lemma_list_exits_all(x: Unifiable, y: Unifiable)
+    requires x is SLinkedList, y is SLinkedList,
+    ensures
+        // both are tail-variable nodes: the tails were unified (or one is $_)
+        ltv(x) && ltv(y) ==> forall|r: SS| #[trigger] sound(r, lterm(x), lterm(y)) ==> sound(r, x, y),
+        // x is a tail-variable node: its variable was unified with the rest of y
+        ltv(x) && !ltv(y) ==> forall|r: SS| #[trigger] sound(r, lterm(x), y) ==> sound(r, x, y),
+        // y is a tail-variable node: its variable was unified with the rest of x
+        !ltv(x) && ltv(y) ==> forall|r: SS| #[trigger] sound(r, lterm(y), x) ==> sound(r, x, y),
+        // both lists end here
+        !ltv(x) && !ltv(y) && lterm(x) == Unifiable::Nil && lterm(y) == Unifiable::Nil ==> forall|r: SS| #[trigger] sound(r, x, y),
+{
+    if ltv(x) && ltv(y) {
+        assert forall|r: SS| #[trigger] sound(r, lterm(x), lterm(y)) implies sound(r, x, y) by {
+            assert forall|n: nat| req(r, x, y, n) by { if n > 0 { assert(req(r, lterm(x), lterm(y), (n - 1) as nat)); } }
+        }
+    }
+    if ltv(x) && !ltv(y) {
+        assert forall|r: SS| #[trigger] sound(r, lterm(x), y) implies sound(r, x, y) by {
+            assert forall|n: nat| req(r, x, y, n) by { if n > 0 { assert(req(r, lterm(x), y, (n - 1) as nat)); } }
+        }
+    }
+    if !ltv(x) && ltv(y) {
+        assert forall|r: SS| #[trigger] sound(r, lterm(y), x) implies sound(r, x, y) by {
+            lemma_sound_sym(r, lterm(y), x);
+            assert forall|n: nat| req(r, x, y, n) by { if n > 0 { assert(req(r, x, lterm(y), (n - 1) as nat)); } }
+        }
+    }
+    if !ltv(x) && !ltv(y) && lterm(x) == Unifiable::Nil && lterm(y) == Unifiable::Nil {
+        assert forall|r: SS| #[trigger] sound(r, x, y) by { assert forall|n: nat| req(r, x, y, n) by { } }
+    }
+}
+
+// one step of the list loop: the elements and the rests are identical when resolved
+pub proof fn lemma_list_step(r: SS, x: Unifiable, y: Unifiable)
+    requires x is SLinkedList, y is SLinkedList, !ltv(x), !ltv(y),
+             sound(r, lterm(x), lterm(y)), sound(r, lnext(x), lnext(y)),
+             lterm(x) != Unifiable::Nil, lterm(y) != Unifiable::Nil,
+    ensures sound(r, x, y),
+{
+    assert forall|n: nat| req(r, x, y, n) by {
+        if n > 0 {
+            assert(req(r, lterm(x), lterm(y), (n - 1) as nat));
+            assert(req(r, lnext(x), lnext(y), (n - 1) as nat));
+        }
+    }
 }
